@@ -12,6 +12,9 @@ BOUNDS = {
 }
 OUTSIDE = "k beyond the bound, more split steps, other geometries; 2-D argument arrays (pairing of array arguments is decided in C04)"
 ASSUMPTIONS = ["group membership of a record is decoded from its position field by the numbering formula (oracles/gwl.py)"]
+from fractions import Fraction
+
+HALF_CENT = Fraction(1, 200)   # exact: the float 0.005*n is not the rational n/200
 
 
 def shards(tier):
@@ -179,7 +182,7 @@ def judge(ctx, p, outcome):
             ctx.prove(ctx.eq(a, b), f"C07: flow {key} (source position, destination position) differs from the requested one")
         else:
             n = sum(1 for q in pairs_seen if q["key"] == key)
-            ctx.prove(ctx.within(a, b, 0.005 * max(n, 1)), f"C07: flow {key} (source position, destination position) differs from the requested one")
+            ctx.prove(ctx.within(a, b, HALF_CENT * max(n, 1)), f"C07: flow {key} (source position, destination position) differs from the requested one")
     # ---- a break closes every column group in which a volume had to be split
     count = {}
     for q in pairs_seen:
